@@ -121,6 +121,9 @@ class Expi:
     def scale(self, a, b):
         return abs(b - a) * abs(self.amp)
 
+    def eval(self, x):
+        return self.amp * cmath.exp(1j * self.k * x)
+
     def desc(self):
         return {"type": "amp*exp(i k x)", "k": self.k, "amp": [self.amp.real, self.amp.imag]}
 
@@ -155,12 +158,15 @@ def call_text(m, dim=1):
 # ------------------------------------------------------------------------------------------------ running jobs
 def run_jobs(ctx, binp, jobs, nproc=None):
     """returns id -> observation.  Jobs are spread over several harness processes; a process that reports a timeout
-    is restarted on the jobs after the one that timed out."""
+    is restarted on the jobs after the one that timed out.  Jobs carrying `threads` run in a process whose rayon pool
+    has that many threads (RAYON_NUM_THREADS)."""
     nproc = nproc or min(NCPU, 12)
     heavy = [j for j in jobs if j.get("heavy")]
-    light = [j for j in jobs if not j.get("heavy")]
+    light = [j for j in jobs if not j.get("heavy") and not j.get("threads")]
     chunks = [light[i::nproc] for i in range(nproc)]
     chunks = [c for c in chunks if c] + [[j] for j in heavy]
+    for t in sorted({j["threads"] for j in jobs if j.get("threads")}):
+        chunks.append([j for j in jobs if j.get("threads") == t and not j.get("heavy")])
     res = {}
     t0 = time.time()
 
@@ -175,8 +181,11 @@ def run_jobs(ctx, binp, jobs, nproc=None):
                 break          # circuit breaker: this code path hangs on everything; the timeouts seen so far are reported
             lim = sum(j.get("limit_ms", 20000) for j in remaining) / 1000.0 + 30
             text = "\n".join(json.dumps({k: v for k, v in j.items() if k != "heavy"}) for j in remaining) + "\n"
+            env = dict(os.environ)
+            if remaining[0].get("threads"):
+                env["RAYON_NUM_THREADS"] = str(remaining[0]["threads"])
             try:
-                r = subprocess.run([binp, "c12", "jobs"], input=text, capture_output=True, text=True, timeout=lim)
+                r = subprocess.run([binp, "c12", "jobs"], input=text, capture_output=True, text=True, timeout=lim, env=env)
                 lines = r.stdout.splitlines()
                 rc = r.returncode
             except subprocess.TimeoutExpired as e:
@@ -243,8 +252,10 @@ class Cases:
         ph = self.rng.uniform(0, 2 * math.pi)
         return Expi(k, cmath.exp(1j * ph) * self.rng.uniform(0.5, 2.0))
 
-    def int1(self, m, a, b, f, limit=LIMIT_1D_MS, trace=False, via=None, heavy=False):
+    def int1(self, m, a, b, f, limit=LIMIT_1D_MS, trace=False, via=None, heavy=False, threads=None):
         j = {"id": self.jid("i"), "op": "int1", "method": m, "a": hx(a), "b": hx(b), "f": f.job(), "limit_ms": limit}
+        if threads:
+            j["threads"] = threads
         if trace:
             j["trace"] = True
         if via:
@@ -424,6 +435,40 @@ def build_cases(ctx, rng, deep=False, counts=None):
         i1 = C.int1(m, a, b, f)
         tol, clause = method_accuracy(m, f, a, b)
         C.checks.append({"kind": "accuracy1", "id": i1, "method": m, "a": a, "b": b, "f": f, "tol": tol, "clause": clause})
+    # Simpson above the 128-division parallel threshold under other rayon pool sizes (the parallel branch must give the same rule
+    # whatever the number of worker threads)
+    for d in ([128, 131, 400] if quick else [128, 129, 130, 131, 200, 255, 256, 399, 400]):
+        for th in ((1, 3) if quick else (1, 2, 3, 5, 8)):
+            a, b = C.interval()
+            p = C.cpoly(3)
+            m = {"m": "simpson", "divs": d}
+            i1 = C.int1(m, a, b, p, threads=th)
+            i0 = C.int1(m, a, b, p)
+            tol, clause = method_accuracy(m, p, a, b)
+            C.checks.append({"kind": "accuracy1", "id": i1, "method": m, "a": a, "b": b, "f": p, "tol": tol,
+                             "clause": clause + f" with a rayon pool of {th} thread(s)"})
+            C.checks.append({"kind": "threads", "ids": [i0, i1], "method": m, "threads": th, "tol": tol})
+    # adaptive Simpson on purely imaginary integrands i*g (g a real polynomial of degree 5..8): the acceptance test must see the
+    # modulus of delta, and I[i g] = i I[g]
+    for t in ([1e-6, 1e-9] if quick else tols):
+        for depth in ([40] if quick else [30, 60]):
+            m = {"m": "asimp", "tol": hx(t), "depth": depth}
+            a = rng.uniform(-3.0, 0.0)
+            b = a + rng.uniform(2.0, 3.0)        # long enough for a single Richardson step to be visibly wrong on degree >= 6
+            g = Poly([(rng.uniform(-1, 1), 0.0) for _ in range(rng.randint(7, 10))])
+            ig = Poly([(0.0, cr) for cr, _ in g.cs])
+            i_g, i_ig = C.int1(m, a, b, g), C.int1(m, a, b, ig)
+            for jid, f in ((i_g, g), (i_ig, ig)):
+                C.checks.append({"kind": "accuracy1", "id": jid, "method": m, "a": a, "b": b, "f": f, "tol": t + TOL12 * f.scale(a, b),
+                                 "clause": "requested tolerance (absolute, as the code applies it)"})
+            C.checks.append({"kind": "linear1", "ids": [i_g, i_g, i_ig], "method": m, "a": a, "b": b, "p": g, "g": g,
+                             "alpha": 1j, "beta": 0j, "tol": 2 * t + TOL12 * g.scale(a, b)})
+    # adaptive Simpson where max_depth binds: C12_adaptive_terminates bounds the number of integrand evaluations by 2^(depth+1)+1
+    for depth in (1, 2, 3, 5):
+        m = {"m": "asimp", "tol": hx(1e-12), "depth": depth}
+        a, b = C.interval()
+        i1 = C.int1(m, a, b, C.expi())
+        C.checks.append({"kind": "eval_bound", "id": i1, "method": m, "dim": 1})
     # the direct entry points agree with the Integrator dispatch
     for d in (50, 51):
         a, b = C.interval()
@@ -438,19 +483,22 @@ def build_cases(ctx, rng, deep=False, counts=None):
     C.checks.append({"kind": "same", "ids": [i1, i2], "what": "Integrator::AdaptiveSimpson.integrate and simpson_adaptive()"})
     i0 = C.int1({"m": "default"}, a, b, C.cpoly(3))
     C.checks.append({"kind": "default", "id": i0, "evals": counts.get(50, 48) + 1})
-    # ---- model correspondence runs for adaptive Simpson on non-cubic polynomials (dyadic inputs keep Q small)
+    # ---- model correspondence runs for adaptive Simpson on non-cubic polynomials (dyadic inputs keep Q small).  The regime keeps
+    # every acceptance threshold (>= 15 * 2^-24 / 2^8) far above the binary64 noise of delta (~1e-13 for |values| <= 400), so the
+    # exact model and the implementation take the same decisions unless one is borderline (detected in the model, see below)
     for _ in range(6 if quick else 30):
-        deg = rng.randint(4, 8)
+        deg = rng.randint(4, 6)
         p = Poly([(rng.randint(-8, 8) / 8.0, rng.randint(-8, 8) / 8.0) for _ in range(deg + 1)])
-        a = rng.randint(-16, 8) / 8.0
-        b = a + rng.randint(2, 24) / 8.0
+        a = rng.randint(-16, 0) / 8.0
+        b = a + rng.randint(2, 16) / 8.0
         if rng.random() < 0.25:
             a, b = b, a
-        t = 2.0 ** -rng.randint(8, 34)
         depth = rng.choice([2, 4, 8, 30])
+        t = 2.0 ** -rng.randint(8, 14 if depth == 30 else 24)
         m = {"m": "asimp", "tol": hx(t), "depth": depth}
         i1 = C.int1(m, a, b, p, trace=True)
         C.checks.append({"kind": "model_asimp", "id": i1, "method": m, "a": a, "b": b, "f": p})
+        C.checks.append({"kind": "eval_bound", "id": i1, "method": m, "dim": 1})
     # ---- H: 2-D
     m2 = [{"m": "simpson", "divs": d} for d in ([4, 6, 50, 128, 400] if quick else [4, 6, 8, 20, 50, 64, 126, 128, 130, 256, 400])]
     m2 += [{"m": "gl", "degree": n} for n in ([0, 2, 3, 8, 20] if quick else [0, 1, 2, 3, 4, 5, 8, 13, 20, 33, 64])]
@@ -478,7 +526,11 @@ def build_cases(ctx, rng, deep=False, counts=None):
         # reversal of the x axis
         jr = dict(j, id=C.jid("t"), a=hx(b), b=hx(a))
         C.add(jr)
-        C.checks.append({"kind": "reverse2", "ab": j["id"], "ba": jr["id"], "method": m, "rect": [a, b, c, d], "p": p, "q": q,
+        C.checks.append({"kind": "reverse2", "ab": j["id"], "ba": jr["id"], "method": m, "rect": [a, b, c, d], "p": p, "q": q, "axis": "x",
+                         "tol": 2 * (tp * sq + tq * sp + TOL12 * sp * sq)})
+        jy = dict(j, id=C.jid("t"), c=hx(d), d=hx(c))
+        C.add(jy)
+        C.checks.append({"kind": "reverse2", "ab": j["id"], "ba": jy["id"], "method": m, "rect": [a, b, c, d], "p": p, "q": q, "axis": "y",
                          "tol": 2 * (tp * sq + tq * sp + TOL12 * sp * sq)})
         if m["m"] in ("simpson", "gl"):
             # non-separable bivariate polynomial: exact by linearity
@@ -513,15 +565,16 @@ def build_cases(ctx, rng, deep=False, counts=None):
         C.add(j)
         C.checks.append({"kind": "model_simpson2d", "id": j["id"], "divs": d, "rect": [a, b, c, dd], "c": cjk})
     for _ in range(2 if quick else 6):
-        p = Poly([(rng.randint(-8, 8) / 8.0, rng.randint(-8, 8) / 8.0) for _ in range(rng.randint(4, 6))])
-        q = Poly([(rng.randint(-8, 8) / 8.0, rng.randint(-8, 8) / 8.0) for _ in range(rng.randint(4, 6))])
-        a, b = rng.randint(-8, 0) / 4.0, rng.randint(1, 8) / 4.0
-        c, dd = rng.randint(-8, 0) / 4.0, rng.randint(1, 8) / 4.0
-        m = {"m": "asimp", "tol": hx(2.0 ** -rng.randint(8, 20)), "depth": rng.choice([2, 3, 6])}
+        p = Poly([(rng.randint(-8, 8) / 8.0, rng.randint(-8, 8) / 8.0) for _ in range(rng.randint(5, 6))])
+        q = Poly([(rng.randint(-8, 8) / 8.0, rng.randint(-8, 8) / 8.0) for _ in range(rng.randint(5, 6))])
+        a, b = rng.randint(-6, 0) / 4.0, rng.randint(1, 6) / 4.0
+        c, dd = rng.randint(-6, 0) / 4.0, rng.randint(1, 6) / 4.0
+        m = {"m": "asimp", "tol": hx(2.0 ** -rng.randint(8, 16)), "depth": rng.choice([2, 3, 4])}
         j = {"id": C.jid("t"), "op": "int2", "method": m, "a": hx(a), "b": hx(b), "c": hx(c), "d": hx(dd),
              "f": {"t": "sep", "p": p.job(), "q": q.job()}, "limit_ms": LIMIT_2D_MS}
         C.add(j)
         C.checks.append({"kind": "model_asimp2d", "id": j["id"], "method": m, "rect": [a, b, c, dd], "p": p, "q": q})
+        C.checks.append({"kind": "eval_bound", "id": j["id"], "method": m, "dim": 2})
     return C
 
 
@@ -537,6 +590,38 @@ def job_of(C, jid):
     return None
 
 
+def panic_cause(msg):
+    """which failure the panic message names (known finding F5d-panic is the unwrap of quad-rs's MaxIterExceeded)"""
+    if "MaxIterExceeded" in msg:
+        return "max_iter_exceeded"
+    if "Steps too low" in msg or "assertion failed" in msg:
+        return "assert"
+    return "other"
+
+
+def time_cause(m, dim):
+    """known finding F5d-time is the nested (2-D) use of quad-rs; anything else is reported"""
+    return "nested_adaptive_2d" if (m["m"] == "gk" and dim == 2) else "other"
+
+
+def accuracy_cause(m, f, a, b, o):
+    """known finding F5e: adaptive Simpson accepted at the FIRST level (exactly the five initial evaluations) an oscillatory
+    integrand that those five equispaced points undersample (|k| (b-a)/4 >= pi, fewer than two samples per period), because the
+    samples agree with a low-frequency alias.  Verified by re-evaluating the integrand at the five points and recomputing the
+    acceptance test |left + right - whole| <= 15 eps from them.  Anything else is `other` and is reported."""
+    if m["m"] != "asimp" or not isinstance(f, Expi):
+        return None
+    v = [f.eval(a + (b - a) * j / 4.0) for j in range(5)]
+    whole = (b - a) / 6.0 * (v[0] + 4 * v[2] + v[4])
+    left = (b - a) / 12.0 * (v[0] + 4 * v[1] + v[2])
+    right = (b - a) / 12.0 * (v[2] + 4 * v[3] + v[4])
+    accepted = abs(left + right - whole) <= 15.0 * fl(m["tol"])
+    undersampled = abs(f.k) * abs(b - a) / 4.0 >= math.pi
+    if o.get("evals") == 5 and accepted and undersampled:
+        return "aliased_first_panel"
+    return "other"
+
+
 def outcome_problem(ctx, C, o, jid, m, dim, what_input):
     """panic / timeout / crash of one call -> violation; returns True when the call produced a value"""
     if o is None:
@@ -548,12 +633,12 @@ def outcome_problem(ctx, C, o, jid, m, dim, what_input):
     if o.get("kind") == "timeout":
         ctx.violation("S5", f"{call_text(m, dim)} did not return within {o['limit_ms'] / 1000:.0f} s on a smooth integrand ({what_input}); "
                             f"{o.get('evals')} integrand evaluations so far",
-                      dict(msig(m), kind="time", dim=dim), {"job": job_of(C, jid), "observation": o})
+                      dict(msig(m), kind="time", dim=dim, cause=time_cause(m, dim)), {"job": job_of(C, jid), "observation": o})
         return False
     if o.get("kind") == "job_panic" or not o.get("ok", False):
         msg = (o.get("panic") or "")[:160]
         ctx.violation("S5", f"{call_text(m, dim)} panics on {what_input}: {msg}",
-                      dict(msig(m), kind="panic", dim=dim),
+                      dict(msig(m), kind="panic", dim=dim, cause=panic_cause(o.get("panic") or "")),
                       {"job": job_of(C, jid), "observation": o})
         return False
     if not finite(o):
@@ -562,7 +647,8 @@ def outcome_problem(ctx, C, o, jid, m, dim, what_input):
         return False
     if o.get("evals", 0) > EVAL_BUDGET[dim]:
         ctx.violation("S5", f"{call_text(m, dim)} needs {o['evals']} integrand evaluations ({o['ms'] / 1000:.1f} s) on a smooth integrand ({what_input}); "
-                            f"budget {EVAL_BUDGET[dim]}", dict(msig(m), kind="time", dim=dim), {"job": job_of(C, jid), "observation": o})
+                            f"budget {EVAL_BUDGET[dim]}", dict(msig(m), kind="time", dim=dim, cause=time_cause(m, dim)),
+                      {"job": job_of(C, jid), "observation": o})
     return True
 
 
@@ -622,10 +708,15 @@ def oracle(ctx, C, obs):
             ctx.sample({"call": call_text(m), "interval": [a, b], "integrand": f.desc(), "result": [fl(o["val"][0]), fl(o["val"][1])],
                         "error": err, "allowed": ck["tol"], "evals": o["evals"]})
             if err > ck["tol"]:
-                ctx.violation("S5", f"{call_text(m)} is off by {err:.3e} (allowed {ck['tol']:.3e}: {ck['clause']}) on {what}",
-                              dict(msig(m), kind="accuracy", dim=1, integrand="poly" if isinstance(f, Poly) else "expi"),
+                sg = dict(msig(m), kind="accuracy", dim=1, integrand="poly" if isinstance(f, Poly) else "expi")
+                cause = accuracy_cause(m, f, a, b, o)
+                if cause:
+                    sg["cause"] = cause
+                ctx.violation("S5", f"{call_text(m)} is off by {err:.3e} (allowed {ck['tol']:.3e}: {ck['clause']}) on {what}"
+                                    + (f" [{cause}: {o['evals']} evaluations]" if cause else ""), sg,
                               {"job": job_of(C, ck["id"]), "result": [fl(o["val"][0]), fl(o["val"][1])],
-                               "expected": [float(exact[0]), float(exact[1])], "error": err, "allowed": ck["tol"], "clause": ck["clause"]})
+                               "expected": [float(exact[0]), float(exact[1])], "error": err, "allowed": ck["tol"], "clause": ck["clause"],
+                               "evals": o["evals"]})
         elif k == "reverse1":
             m, f, a, b = ck["method"], ck["f"], ck["a"], ck["b"]
             what = f"{f.desc()} on [{a!r}, {b!r}]"
@@ -654,6 +745,28 @@ def oracle(ctx, C, obs):
                                     f"(allowed {2 * ck['tol']:.3e})", dict(msig(m), kind="linear", dim=1),
                               {"jobs": [job_of(C, i) for i in ck["ids"]], "alpha": [ck["alpha"].real, ck["alpha"].imag],
                                "beta": [ck["beta"].real, ck["beta"].imag], "values": [[v.real, v.imag] for v in (vp, vg, vh)]})
+        elif k == "threads":
+            m = ck["method"]
+            ctx.seen(("threads", m["divs"], ck["threads"], ck["ids"][1]))
+            o1, o2 = get(ck["ids"][0], m, 1, "a cubic"), get(ck["ids"][1], m, 1, f"a cubic with {ck['threads']} rayon thread(s)")
+            if o1 is None or o2 is None:
+                continue
+            if abs(val_of(o1) - val_of(o2)) > 2 * ck["tol"] or o1["evals"] != o2["evals"]:
+                ctx.violation("S5", f"{call_text(m)} depends on the size of the rayon pool: {val_of(o1)!r} ({o1['evals']} evaluations, default pool) vs "
+                                    f"{val_of(o2)!r} ({o2['evals']} evaluations, {ck['threads']} thread(s))",
+                              dict(msig(m), kind="threads", dim=1), {"jobs": [job_of(C, i) for i in ck["ids"]], "threads": ck["threads"]})
+        elif k == "eval_bound":
+            m, dim = ck["method"], ck["dim"]
+            o = obs.get(ck["id"])
+            ctx.seen(("eval_bound", ck["id"]))
+            if not o or o.get("kind") not in ("int1", "int2"):
+                continue
+            bound = 2 ** (m["depth"] + 1) + 1
+            bound = bound if dim == 1 else bound * bound
+            if o.get("evals", 0) > bound:
+                ctx.violation("S5", f"{call_text(m, dim)} made {o['evals']} integrand evaluations; max_depth = {m['depth']} allows at most {bound} "
+                                    f"(C12_adaptive_terminates): the recursion is not limited by max_depth",
+                              dict(msig(m), kind="eval_bound", dim=dim), {"job": job_of(C, ck["id"]), "evals": o["evals"], "bound": bound})
         elif k == "same":
             o1, o2 = obs.get(ck["ids"][0]), obs.get(ck["ids"][1])
             ctx.seen(("same", ck["what"], ck["ids"][0]))
@@ -697,13 +810,13 @@ def oracle(ctx, C, obs):
             p, q = ck["p"], ck["q"]
             what = f"p(x) q(y), p = {p.desc()}, q = {q.desc()} on [{a!r},{b!r}]x[{c!r},{d!r}]"
             if k == "reverse2":
-                o1, o2 = get(ck["ab"], m, 2, what), get(ck["ba"], m, 2, what + " with the x interval reversed")
+                o1, o2 = get(ck["ab"], m, 2, what), get(ck["ba"], m, 2, what + f" with the {ck.get('axis', 'x')} interval reversed")
                 if o1 is None or o2 is None:
                     continue
                 v1, v2 = fval_of(o1), fval_of(o2)
                 s = math.hypot(float(v1[0] + v2[0]), float(v1[1] + v2[1]))
                 if s > ck["tol"]:
-                    ctx.violation("S5", f"{call_text(m, 2)}: reversing the x interval does not negate the result: {val_of(o1)!r} vs {val_of(o2)!r}",
+                    ctx.violation("S5", f"{call_text(m, 2)}: reversing the {ck.get('axis', 'x')} interval only does not negate the result: {val_of(o1)!r} vs {val_of(o2)!r} on {what}",
                                   dict(msig(m), kind="reverse", dim=2),
                                   {"job_ab": job_of(C, ck["ab"]), "job_ba": job_of(C, ck["ba"]), "sum_should_be_zero_within": ck["tol"]})
                 continue
@@ -792,6 +905,9 @@ def correspondence(ctx, C, obs):
                 tx, tw = ulp_tol(a, b), ulp_tol(abs(b - a) / n * 4 / 3)
             add("rs_" + ck["id"], f"rule_close {qlit(tx)} {qlit(tw)} ({model}) {rule_lit(nodes, w)}", "rule1_simpson", ck)
         elif k == "rule2_simpson" and o and o.get("ok"):
+            if o["w_re"] != o["w_im"]:
+                ctx.violation("S4", f"Simpson {{divs: {ck['divs']}}} 2-D: real and imaginary parts are integrated with different weights",
+                              {"kind": "rule_re_im", "method": "Simpson", "dim": 2}, {"job": job_of(C, ck["id"])})
             a, b, c, d = ck["rect"]
             ent = list(zip([fr(x) for x in o["xs"]], [fr(x) for x in o["ys"]], [fr(x) for x in o["w_re"]]))
             # model order: y outer, x inner, each ascending in the index, i.e. in the direction a -> b
@@ -817,6 +933,10 @@ def correspondence(ctx, C, obs):
             add("gt_" + ck["id"], f"rule_close {qlit(ulp_tol(a, b))} {qlit(ulp_tol(abs(b - a)))} (gq_transfer Qops {rule_lit(xs, ws)} {qlit(a)} {qlit(b)}) "
                                   f"{rule_lit([fr(x) for x in o['nodes']], [fr(x) for x in o['w_re']])}", "gl_transfer", ck)
         elif k == "gl_rule2" and o and o.get("ok") and ck["n"] in gl_tables:
+            if o["w_re"] != o["w_im"]:
+                ctx.violation("S4", f"GaussLegendre {{degree: {ck['n']}}}.integrate2d: the real and the imaginary pass do not apply the same rule "
+                                    f"(weights of the indicator integrands differ) on the rectangle {ck['rect']}",
+                              {"kind": "rule_re_im", "method": "GaussLegendre", "dim": 2}, {"job": job_of(C, ck["id"])})
             xs, ws = gl_tables[ck["n"]]
             a, b, c, d = ck["rect"]
             ent = list(zip([fr(x) for x in o["xs"]], [fr(x) for x in o["ys"]], [fr(x) for x in o["w_re"]]))
@@ -835,15 +955,20 @@ def correspondence(ctx, C, obs):
                 xs, ws = gl_tables[max(m["degree"], 2)]
                 add("mg_" + ck["id"], f"vclose {qlit(tol)} (integrate_GaussLegendre Qops (fun _ => {rule_lit(xs, ws)}) (poly {f.q()}) {qlit(a)} {qlit(b)} {m['degree']}) {v}",
                     "model_gl", ck)
-            elif m["m"] == "asimp":
+            elif m["m"] == "asimp" and len(f.cs) <= 4:      # deeper recursions on raw binary64 inputs are covered by model_asimp (dyadic)
                 add("ma_" + ck["id"], f"(vclose {qlit(tol)} (simpson_adaptive Qops (poly {f.q()}) {qlit(a)} {qlit(b)} {qlit(fr(m['tol']))} {m['depth']}%nat) {v} && "
                                       f"Nat.eqb (simpson_adaptive_calls Qops (poly {f.q()}) ones1 {qlit(a)} {qlit(b)} {qlit(fr(m['tol']))} {m['depth']}%nat) {o['evals']})%bool",
                     "model_asimp", ck)
         elif k == "model_asimp" and o and o.get("ok") and finite(o):
             m, f, a, b = ck["method"], ck["f"], ck["a"], ck["b"]
             tol = Fraction(TOL12 * max(f.scale(a, b), 1e-300))
-            add("mA_" + ck["id"], f"(vclose {qlit(tol)} (simpson_adaptive Qops (poly {f.q()}) {qlit(a)} {qlit(b)} {qlit(fr(m['tol']))} {m['depth']}%nat) {cqlit(fval_of(o))} && "
-                                  f"Nat.eqb (simpson_adaptive_calls Qops (poly {f.q()}) ones1 {qlit(a)} {qlit(b)} {qlit(fr(m['tol']))} {m['depth']}%nat) {o['evals']})%bool",
+            # the call count is compared only when no acceptance decision of the exact model is borderline: the model is also run with
+            # the tolerance scaled by 1 -+ 1/1024 (every threshold moves by that factor); equal counts = all margins exceed 1e-3
+            e0 = fr(m["tol"])
+            calls = lambda e: f"(simpson_adaptive_calls Qops (poly {f.q()}) ones1 {qlit(a)} {qlit(b)} {qlit(e)} {m['depth']}%nat)"
+            add("mA_" + ck["id"], f"(vclose {qlit(tol)} (simpson_adaptive Qops (poly {f.q()}) {qlit(a)} {qlit(b)} {qlit(e0)} {m['depth']}%nat) {cqlit(fval_of(o))} && "
+                                  f"(negb (Nat.eqb {calls(e0)} {calls(e0 * Fraction(1023, 1024))} && Nat.eqb {calls(e0)} {calls(e0 * Fraction(1025, 1024))}) || "
+                                  f"Nat.eqb {calls(e0)} {o['evals']}))%bool",
                 "model_asimp", ck)
         elif k == "model_simpson2d" and o and o.get("ok") and finite(o):
             a, b, c, d = ck["rect"]
@@ -858,8 +983,12 @@ def correspondence(ctx, C, obs):
             S = p.scale(a, b) * q.scale(c, d)
             fq = f"(sep {p.q()} {q.q()})"
             args = f"{qlit(a)} {qlit(b)} {qlit(c)} {qlit(d)} {qlit(fr(m['tol']))} {m['depth']}%nat"
+            e0 = fr(m["tol"])
+            rect = f"{qlit(a)} {qlit(b)} {qlit(c)} {qlit(d)}"
+            calls2 = lambda e: f"(simpson_adaptive_2d_calls Qops {fq} ones2 {rect} {qlit(e)} {m['depth']}%nat)"
             add("mB_" + ck["id"], f"(vclose {qlit(Fraction(TOL12 * S))} (simpson_adaptive_2d Qops {fq} {args}) {cqlit(fval_of(o))} && "
-                                  f"Nat.eqb (simpson_adaptive_2d_calls Qops {fq} ones2 {args}) {o['evals']})%bool", "model_asimp2d", ck)
+                                  f"(negb (Nat.eqb {calls2(e0)} {calls2(e0 * Fraction(1023, 1024))} && Nat.eqb {calls2(e0)} {calls2(e0 * Fraction(1025, 1024))}) || "
+                                  f"Nat.eqb {calls2(e0)} {o['evals']}))%bool", "model_asimp2d", ck)
     res = run_compute_cases(ctx, "C12", IMPORTS, "", exprs, shards=min(NCPU, max(1, len(exprs) // 12)))
     ctx.cov["obligations"] += len(exprs)
     nbad = 0
@@ -983,8 +1112,7 @@ def gl_certificates(ctx, gl_tables):
 
 def build_findings(ctx):
     """refuted lemmas of the known defects: outside the obligation set; if one stops compiling the defect is gone"""
-    for f, fid in (("Findings/C12_accept.vo", "F5a/F5b (accepted divs)"), ("Findings/C12_adaptive_reverse.vo", "F5c (adaptive Simpson reversal)"),
-                   ("Findings/C12_adaptive_alias.vo", "F5e (adaptive Simpson accepts aliased samples)")):
+    for f, fid in (("Findings/C12_adaptive_alias.vo", "F5e (adaptive Simpson accepts aliased samples)"),):
         ok, fails, _ = coq_build(ctx, [f], timeout=600)
         if not ok:
             ctx.note(f"finding {fid}: refuted lemma {f[:-1]} no longer compiles on this tree — the defect no longer reproduces on the model")
@@ -1069,18 +1197,17 @@ def run(ctx):
     else:
         ctx.note("correspondence cases skipped: generated model did not compile")
     def baseline(v):
-        """defects of the pinned tree that this check re-establishes on every run (DESIGN §5 F5a-d)"""
+        """open defects this check re-establishes on every run (known findings F5d, F5e)"""
         sg = v["sig"]
-        return sg.get("kind") in ("simpson_1d_rejects", "simpson2d_rejects_divs_accepted_in_1d") or \
-            (sg.get("kind") == "reverse" and sg.get("method") == "AdaptiveSimpson") or \
-            (sg.get("kind") == "accuracy" and sg.get("method") == "AdaptiveSimpson" and sg.get("integrand") == "expi") or \
-            (sg.get("kind") in ("panic", "time") and sg.get("method") == "GaussKonrod")
+        return (sg.get("kind") == "accuracy" and sg.get("method") == "AdaptiveSimpson" and sg.get("cause") == "aliased_first_panel") or \
+            (sg.get("kind") == "panic" and sg.get("method") == "GaussKonrod" and sg.get("cause") == "max_iter_exceeded") or \
+            (sg.get("kind") == "time" and sg.get("method") == "GaussKonrod" and sg.get("cause") == "nested_adaptive_2d")
     new_input = any(v["found_input"] and not baseline(v) for v in ctx.violations)
     if (not proved or nbad) and not new_input:
         ctx.log("S5 deep search for a failing input (a proof obligation or a correspondence case is broken)")
         for k in range(2):
             C2 = build_cases(ctx, random.Random(ctx.seed + 7919 * (k + 1)), deep=True, counts=counts)
-            C2.checks = [c for c in C2.checks if c["kind"] in ("accuracy1", "reverse1", "linear1", "separable2", "reverse2", "poly2")]
+            C2.checks = [c for c in C2.checks if c["kind"] in ("accuracy1", "reverse1", "linear1", "separable2", "reverse2", "poly2", "threads", "eval_bound")]
             need = set()
             for c in C2.checks:
                 for key in ("id", "ab", "ba", "ix", "iy"):
@@ -1107,11 +1234,11 @@ def run(ctx):
         "n-point Gauss-Legendre exact to degree 2n-1": "proved per extracted rule: kernel-checked moment certificate (1e-13) + C12_certified_rule_exact, re-extracted every run; binary64 evaluation measured",
         "adaptive Simpson exact on cubics (a<=b), Richardson step exact to degree 5, accepted panel error <= eps": "proved",
         "smooth oscillatory integrands within textbook bound / tolerance": "REFUTED for adaptive Simpson (Findings/C12_adaptive_alias.v: exp(4ix) on [0,2pi] returns 2pi for every tolerance); proved for Simpson 1-D on amp*exp(ikx) (C12_simpson_expi_bound: |b-a| h^4 k^4 |amp|/180, every interval/k/amplitude/accepted divs); Gauss-Legendre bound and the adaptive methods' tolerances validated_only (oracle on amp*exp(ikx))",
-        "reversing the interval negates": "proved for Simpson 1-D/2-D (all integrands); proved within 2*bound for certified Gauss-Legendre on polynomials; REFUTED for adaptive Simpson (C12_adaptive_symmetric, Findings/C12_adaptive_reverse.v); Gauss-Kronrod, Clenshaw-Curtis validated_only",
+        "reversing the interval negates": "proved for Simpson 1-D/2-D and adaptive Simpson 1-D/2-D (all integrands, C12_adaptive_reverse, C12_adaptive_2d_reverse); proved within 2*bound for certified Gauss-Legendre on polynomials; Gauss-Kronrod, Clenshaw-Curtis validated_only",
         "linear in the integrand": "proved for every fixed rule (Simpson 1-D/2-D, Gauss-Legendre adapter); adaptive methods validated_only",
         "2-D separable = product of 1-D": "proved for tensor rules (C12_tensor, C12_simpson2d_product_of_1d); others validated_only",
         "terminates in bounded time": "proved as a bound on integrand calls: Simpson n+1 / (n+1)^2, adaptive Simpson <= 2^(depth+1)+1 (squared in 2-D) for EVERY integrand, 5 on cubics; Gauss-Kronrod / Clenshaw-Curtis validated_only under a wall-clock watchdog",
-        "parameter accepted in 1-D is accepted in 2-D": "proved on even divs; REFUTED on odd divs >= 5 (Findings/C12_accept.v); 1-D rejects divs = 4",
+        "parameter accepted in 1-D is accepted in 2-D": "proved for ALL divs (C12_accept_1d_2d); every divs >= 4 accepted by both forms (C12_accept_from4)",
         "Gauss-Kronrod, Clenshaw-Curtis accuracy": "validated_only (external adaptive crates)"}
     return finish(ctx, assumptions=[
         "binary64 rounding of the kernels is measured against the exact Q model (1e-12 relative to the scale |b-a| sum|c_k| max(|a|,|b|)^k), not proved",
